@@ -31,6 +31,8 @@ import (
 	"github.com/ozontech/seq-db/zzverif/vrand"
 	"github.com/ozontech/seq-db/zzverif/vtime"
 	"google.golang.org/grpc"
+	"google.golang.org/grpc/codes"
+	"google.golang.org/grpc/status"
 	"google.golang.org/protobuf/types/known/emptypb"
 )
 
@@ -68,7 +70,7 @@ func (f *fakeStore) Bulk(ctx context.Context, in *pb.BulkRequest, _ ...grpc.Call
 	f.w.mu.Unlock()
 	out := "ok" // the follow-up bulk meets healthy stores: nothing is asked
 	if phase == 1 {
-		out = []string{"ok", "error", "deadline", "cancelled"}[vdec.Ask(fmt.Sprintf("bulk/%s/#%d", f.host, n), 4)]
+		out = []string{"ok", "error", "deadline", "cancelled", "canceled-status"}[vdec.Ask(fmt.Sprintf("bulk/%s/#%d", f.host, n), 5)]
 	}
 	f.w.mu.Lock()
 	f.w.calls = append(f.w.calls, callRec{Host: f.host, N: n, Payload: fmt.Sprintf("%x", h[:6]), Outcome: out, Phase: phase})
@@ -81,6 +83,10 @@ func (f *fakeStore) Bulk(ctx context.Context, in *pb.BulkRequest, _ ...grpc.Call
 	case "cancelled":
 		f.w.cancel()
 		return nil, context.Canceled
+	case "canceled-status":
+		// the call is answered with the gRPC status Canceled (the store's handler context was cancelled, a balancer
+		// reset the stream) while the request context of the proxy stays alive
+		return nil, status.Error(codes.Canceled, "context canceled")
 	}
 	return &emptypb.Empty{}, nil
 }
@@ -403,7 +409,7 @@ func TestVerifC09(t *testing.T) {
 	r.Sample(c09Case{Topo: topo{2, 2, 1, 1}, Assign: map[string]int{"bulk/hot-s0-r1/#1": 1, "breaker/bulk_hot/s1/attempt0": 1}})
 	ev := r.Get("evaluations")
 	r.Finish(t, "fault_enumeration",
-		fmt.Sprintf("topologies hot {1..3}x{1..3} x long-term {none,1x1,1x2,2x1,2x2}; environment events: every store call (ok / error / call deadline / request context cancelled during the call), every shard circuit breaker before every attempt (closed / open), every shard shuffle (all permutations); all assignments for topologies with <=2 hot replicas in total and <=1 long-term replica, at most %d deviations from the default answers beyond (one less for the largest); oracle on the recorded call log: acknowledged => a hot shard all of whose replicas have a successful call with exactly the payload, and the same for the long-term tier; no replica called more than BulkMaxTries times; all-default => acknowledged; after every explored bulk a second bulk is sent through the same client to healthy stores and must be acknowledged with a full replica set holding its own payload. Overlapping bulks: the real bulk.Ingestor on the real client, topologies 1x2, 2x2, 1x3, 1x2+1x1, 1x1+1x2, every store call of bulk A ok / error and, at every such call, optionally a second bulk B running to completion through the same ingestor (once), at most "+fmt.Sprint(c09OverlapBound(r.Thorough()))+" deviations; acknowledged => a full replica set accepted exactly the bytes first sent for that bulk (A and B). distinct_nontrivial = distinct assignments with at least one deviation", bigBound),
+		fmt.Sprintf("topologies hot {1..3}x{1..3} x long-term {none,1x1,1x2,2x1,2x2}; environment events: every store call (ok / error / call deadline / request context cancelled during the call / answered with status Canceled while the request lives), every shard circuit breaker before every attempt (closed / open), every shard shuffle (all permutations); all assignments for topologies with <=2 hot replicas in total and <=1 long-term replica, at most %d deviations from the default answers beyond (one less for the largest); oracle on the recorded call log: acknowledged => a hot shard all of whose replicas have a successful call with exactly the payload, and the same for the long-term tier; no replica called more than BulkMaxTries times; all-default => acknowledged; after every explored bulk a second bulk is sent through the same client to healthy stores and must be acknowledged with a full replica set holding its own payload. Overlapping bulks: the real bulk.Ingestor on the real client, topologies 1x2, 2x2, 1x3, 1x2+1x1, 1x1+1x2, every store call of bulk A ok / error and, at every such call, optionally a second bulk B running to completion through the same ingestor (once), at most "+fmt.Sprint(c09OverlapBound(r.Thorough()))+" deviations; acknowledged => a full replica set accepted exactly the bytes first sent for that bulk (A and B). distinct_nontrivial = distinct assignments with at least one deviation", bigBound),
 		map[string]any{
 			"states":                        r.DistinctCount("outcomes"),
 			"transitions":                   ev,
